@@ -16,7 +16,7 @@ META = dict(
                "proved as a witness and recorded as a finding. The model is tied to /repo on every run: generated multi-user request sequences (valid "
                "stream + missing/garbage/logged-out/expired tokens, wrong roles, non-owners) are executed against a real server process and the HTTP "
                "status, response body and the observable state (users/sessions, databases, role tables, contents, audit logs) after every request are "
-               "compared line by line with the extracted model; the property itself is also checked directly on the implementation's observations.",
+               "compared line by line with the extracted model; the property itself is also checked directly on the implementation's observations. The documentation's permission table and the required_role / t_exec / t_exec_mut query-kind lists are re-read from the source tree on every run and compared with the model's tables.",
     design_ref="DESIGN.md §5 C24",
     level_note="Trusted: Coq kernel, extraction (ExtrOcamlBasic), OCaml driver, Rust harness and its canonical printers, agdb_api HTTP client. Theorems are about "
                "the model; the tie to the code is differential execution. Password hashing, TLS, header parsing, the cluster endpoints and Memory databases "
